@@ -46,11 +46,26 @@ for _d in RATIO_D:
         GEOM[f"Cylinder-ratio{_d:g}x{_h:g}"] = (_d, _h)
 
 
+def flat_tetra(k):
+    """four coplanar vertices with generic (non-round) coordinates, deterministic in k: p_i = c + a_i u + b_i w"""
+    x = (np.modf(np.sin(np.arange(1, 18) * (k + 1) * 12.9898) * 43758.5453)[0] + 1.0) * 0.5 + 0.05
+    u, w, c = x[0:3] - 0.5, x[3:6] - 0.4, x[6:9]
+    ab = x[9:17].reshape(4, 2) * 2 - 1
+    return np.array([c + a * u + b * w for a, b in ab])
+
+
+N_FLAT = 80
+for _k in range(N_FLAT):
+    GEOM[f"TetrahedronFlat-g{_k}"] = None
+
+
 def sources():
     import magpylib as magpy
 
     pol = (0.2, -0.3, 0.9)
     S = {}
+    for _k in range(N_FLAT):   # zero-volume tetrahedra the setter accepts, in generic position
+        S[f"TetrahedronFlat-g{_k}"] = lambda _k=_k, **kw: magpy.magnet.Tetrahedron(vertices=flat_tetra(_k), polarization=pol, **kw)
     for nm in GEOM:
         if nm.startswith("Cylinder-ratio"):
             S[nm] = lambda nm=nm, **kw: magpy.magnet.Cylinder(dimension=GEOM[nm], polarization=pol, **kw)
@@ -141,6 +156,12 @@ def point_sets(name):
         out.append(("surface-lattice", np.array([d * r for d in dirs for r in near(R)]), False))
         out.append(("centre-tiny", np.array([(t, u, 0.0) for t in tiny for u in tiny]), False))
         out.append(("far", np.array([d * f for d in dirs for f in far]), False))
+    elif base == "TetrahedronFlat":
+        v = flat_tetra(int(name.split("-g")[1]))
+        n = np.cross(v[1] - v[0], v[2] - v[0])
+        n /= np.linalg.norm(n)
+        c0 = v.mean(axis=0)
+        out.append(("off-plane", np.array([c0 + n * h + 0.3 * (v[i] - c0) for h in (0.05, -0.4, 3.0) for i in range(4)] + [c0 + (5.0, -3.0, 2.0)]), False))
     elif base in ("Tetrahedron", "TriangularMesh", "Triangle"):
         v = TV if base != "Triangle" else TV[:3]
         if name == "Tetrahedron-coplanar":
@@ -306,7 +327,7 @@ def run(tier, seed):
         for si, (label, pts, allow) in enumerate(sets):
             if name.startswith("Cylinder-ratio") and label != "rim-lattice":
                 continue
-            for pose_i in ((0, 1) if not name.startswith("Cylinder-ratio") else (0,)):
+            for pose_i in ((0, 1) if not name.startswith(("Cylinder-ratio", "TetrahedronFlat")) else (0,)):
                 for field in ("B", "H", "J", "M") if (tier == "thorough" or pose_i == 0) else ("B",):
                     if field in "JM" and label == "far":
                         continue
